@@ -1,6 +1,10 @@
 """C05 — simulation results do not depend on the process decomposition.
 
 proof side    : Props/C05.lean (wiring_* theorems, gridop_decomposition_independent, negative witnesses of the repaired defects)
+                Props/C05Gen.lean (tie by translation of pygyro/initialisation/initialiser_funcs.py, Generated/InitFuncsGen.lean regenerated on every
+                run; exp / tanh / cos / sqrt / pi uninterpreted: closed formulas of n0, Ti, Te, perturbation, f_eq, n0deriv_normalised, init_f, and the
+                per-slice clauses gen_init_f_flux_eq / gen_init_f_pol_eq / gen_init_f_vpar_eq / gen_feq_vector_eq: every entry of the output is the
+                scalar function at that entry's OWN coordinates, nothing else is written)
 correspondence: (i) wiring traces — the real grid-level operators run on every rank of a forced process grid with their kernels wrapped:
                     every kernel call is recorded as (global slice indices, global indices at which parameters/table rows were taken) and
                     compared exactly with the call list of Model/Wiring.lean;
@@ -422,6 +426,34 @@ def op_body(npts, forced, iota, which, start):
             raise OperatorsShareState('PoloidalAdvection: the result of A.gridStep_SplinesUnchanged depends on a gridStep of ANOTHER operator '
                                       'in between (max difference %.3e)' % float(np.max(np.abs(np.array(f.getAllData()) - with_b))))
         f.getAllData()[:] = with_b
+    elif which == 'pol_zero':
+        # a grid step of length zero with a NEW potential (an identity for f) still belongs to that potential: the following
+        # gridStep_SplinesUnchanged traces the characteristics of the potential of the zero step, as a fresh operator given that
+        # potential would (compared bit for bit, besides the serial / parallel comparison of the caller)
+        from pygyro.advection.advection import PoloidalAdvection
+        f.setLayout('poloidal')
+        phi.setLayout('poloidal')
+        fill_phi(phi, npts, 'poloidal', 5)
+        phi.getAllData()[:] *= 0.01
+        A = o['pol']
+        A.gridStep(f, phi, o['half'])
+        fill_phi(phi, npts, 'poloidal', 11)
+        phi.getAllData()[:] *= 0.02
+        before = np.array(f.getAllData(), copy=True)
+        A.gridStep(f, phi, 0.0)
+        # (a step of length zero evaluates the interpolant at the nodes: the identity up to rounding)
+        if not np.allclose(np.array(f.getAllData()), before, rtol=1e-10, atol=1e-10 * max(1.0, float(np.abs(before).max()) if before.size else 1.0)):
+            raise OperatorsShareState('PoloidalAdvection.gridStep with dt = 0 changed the distribution function by more than rounding')
+        before = np.array(f.getAllData(), copy=True)
+        A.gridStep_SplinesUnchanged(f, o['half'])
+        got = np.array(f.getAllData(), copy=True)
+        R = PoloidalAdvection(f.eta_grid, f.getSpline(slice(1, None, -1)), o['constants'])
+        f.getAllData()[:] = before
+        R.gridStep(f, phi, o['half'])
+        if not np.array_equal(np.array(f.getAllData()), got):
+            raise OperatorsShareState('PoloidalAdvection: gridStep(f, phi_new, 0) followed by gridStep_SplinesUnchanged(f, dt) does not advect along the '
+                                      'characteristics of phi_new (max difference to gridStep(f, phi_new, dt) on a fresh operator %.3e)'
+                                      % float(np.max(np.abs(np.array(f.getAllData()) - got))))
     elif which == 'qn':
         f.setLayout('v_parallel')
         o['density'].getPerturbedRho(f, rho)
@@ -453,7 +485,7 @@ def part_operators(chk, stats):
     grids = chk.n([(2, 1), (1, 2), (2, 2), (3, 2)], [(2, 1), (1, 2), (2, 2), (3, 2), (3, 1), (1, 3), (2, 3), (2, 4), (6, 1), (3, 3)])
     for which, start, iotas in (('init', 'flux_surface', [0.8]), ('init', 'poloidal', [0.8]), ('init', 'v_parallel', [0.8]),
                                 ('init_prof', 'flux_surface', [0.8]), ('init_prof', 'poloidal', [0.8]), ('init_prof', 'v_parallel', [0.8]),
-                                ('flux', 'flux_surface', [0.0, 0.8]), ('flux_tuned', 'flux_surface', [0.8]), ('flux_partly_aligned', 'flux_surface', [0.8]), ('vpar', 'v_parallel', [0.8]), ('vpar_shear', 'v_parallel', [0.8]), ('vpar_seq', 'v_parallel', [0.8]), ('pol', 'poloidal', [0.8]), ('pol_seq', 'poloidal', [0.8]), ('pol_two', 'poloidal', [0.8]), ('qn', 'v_parallel', [0.8])):
+                                ('flux', 'flux_surface', [0.0, 0.8]), ('flux_tuned', 'flux_surface', [0.8]), ('flux_partly_aligned', 'flux_surface', [0.8]), ('vpar', 'v_parallel', [0.8]), ('vpar_shear', 'v_parallel', [0.8]), ('vpar_seq', 'v_parallel', [0.8]), ('pol', 'poloidal', [0.8]), ('pol_seq', 'poloidal', [0.8]), ('pol_two', 'poloidal', [0.8]), ('pol_zero', 'poloidal', [0.8]), ('qn', 'v_parallel', [0.8])):
         for iota in iotas:
             ref = lu.run_ranks(1, op_body, npts, (1, 1), iota, which, start)
             if not ref.ok:
@@ -528,7 +560,9 @@ def run(chk):
     _tr = _sp.run(['/venv/bin/python', str(common.VERIF / 'harness' / 'translate_driver.py'), '--repo', str(common.REPO), '--out', common.generated_dir(chk)], capture_output=True, text=True)
     if _tr.returncode != 0:
         chk.proof_broken.append({'theorem': 'translator (harness/translate_driver.py) refused the source of the time loop', 'log': (_tr.stdout + _tr.stderr)[-800:]})
-    chk.proof_side(build=not getattr(chk, 'no_build', False), extra_props=('C15Extra', 'C05Extra'))
+    # Props/C05Gen.lean is about Generated/InitFuncsGen.lean = pygyro/initialisation/initialiser_funcs.py as the source says it NOW
+    common.run_translator(chk, 'translate_pure.py', '--only', 'initfuncs')
+    chk.proof_side(build=not getattr(chk, 'no_build', False), extra_props=('C15Extra', 'C05Extra', 'C05Gen'))
     stats = {'bit_identical': 0, 'compared': 0}
     drv = common.LeanDriver('C05.lean')
     try:
